@@ -156,6 +156,7 @@ void profile_copy(const json& plan, Ctx& ctx) {
 struct SigCtx {
 	NifFile& nif;
 	const NiStringRef* maskName = nullptr;
+	uint32_t rootId = NIF_NPOS; // the shape whose subgraph is signed: pointers back to it are labelled SELF (its name differs in a clone)
 	bool skipGeometryBlocks = false; // model-space shader: CloneShape drops normals/tangents by design
 	std::map<uint32_t, std::string> labels; // for diagnostics
 };
@@ -204,7 +205,7 @@ static uint64_t blockSig(SigCtx& sc, uint32_t id, std::set<uint32_t>& onPath, st
 				}
 			}
 			else {
-				std::string t = nameOrType(sc.nif, r->index);
+				std::string t = r->index == sc.rootId ? std::string("SELF") : nameOrType(sc.nif, r->index);
 				h.str("<ptr:" + t + ">");
 				if (parts) parts->push_back(std::string(size_t(depth), '>') + std::string(obj->GetBlockName()) + ".ptr->" + t);
 			}
@@ -232,6 +233,7 @@ static uint64_t shapeSig(NifFile& nif, NiShape* s, bool skipGeom, std::vector<st
 	SigCtx sc{nif};
 	sc.maskName = &s->name;
 	sc.skipGeometryBlocks = skipGeom;
+	sc.rootId = nif.GetBlockID(s);
 	std::set<uint32_t> onPath;
 	return blockSig(sc, nif.GetBlockID(s), onPath, parts);
 }
